@@ -2,10 +2,14 @@
 (***************************************************************************)
 (* Validation of runs recorded from real lena pipelines (Sequence, nested  *)
 (* Sequences, Source) against the declarative semantics of FlowSem.tla.    *)
-(* Record: [prog, n, pairs, out, pulls, lazy]                              *)
+(* Record: [prog, n, pairs, out, pulls, lazy, alive]                       *)
 (*   out    projected values delivered by the real pipeline                *)
 (*   pulls  number of values pulled from the instrumented input at each    *)
 (*          delivery (checked only when lazy = TRUE: streaming vocabulary) *)
+(*   alive  largest number of input values found alive (weak references)   *)
+(*          at any pull or delivery of the run; -1: not measured.  A       *)
+(*          pipeline of streaming elements keeps alive only what its       *)
+(*          elements document (AliveBound), however long the flow is       *)
 (***************************************************************************)
 EXTENDS FlowSem, Json, IOUtils
 
@@ -18,6 +22,7 @@ FlowOf(n, pairs) == [j \in 1..n |-> Val(j - 1, {}, pairs)]
 Ok(r) == LET xs == FlowOf(r.n, r.pairs) IN
          /\ NormOut(r.out) = Sem(r.prog, xs)
          /\ r.lazy => \A j \in 1..Len(r.pulls) : r.pulls[j] <= MinNeed(r.prog, xs, j)
+         /\ r.alive >= 0 => r.alive <= AliveBound(r.prog)
 Init == i = 1
 Next == i <= Len(Trace) /\ Ok(Trace[i]) /\ i' = i + 1
 Spec == Init /\ [][Next]_i
